@@ -1,19 +1,44 @@
 (* C16 — classic decoders are total and agree with each other.
-   Only statements here; every proof is `exact <lemma>` from Proofs/ClassicProofs.v.
+   Only statements here; every proof is `exact <lemma>` from Proofs/Classic*.v.
 
-   Full statement: node_from_bytes, parse_triples and tree_hash_from_stream are total, accept the
-   same strings, consume the same bytes, describe the same tree; and for accepted inputs
+   Full statement: node_from_bytes, parse_triples and tree_hash_from_stream are total (no panic,
+   no over-allocation), accept the same strings, consume the same bytes, describe the same tree
+   (same triple structure and tree hash); and for accepted inputs
    is_canonical_serialization b <-> (consumed = |b| /\ ser t = b).
-   Proved: node_from_stream and tree_hash_from_stream both refine the recursive grammar [parse]
-   for every byte string (same accept set, same remaining input, hash = treehash of the tree,
-   same error), and neither reaches a panic site or runs out of its fuel (fuel is a function of the
-   input length, so termination within 2|b|+2 loop iterations is part of the statement).
-   NOT proved (so the property is claimed below proof level): the same refinement for
-   parse_triples (modelled in Model/Classic.v, compared with the implementation, no theorem yet)
-   and the canonical equivalence (only its <- direction on serializer output, C15_canonical).
-   Real memory use is outside the model. The sha256 function is a Section variable: the theorems
-   hold for every function H. *)
-From Clvm Require Import Model.Classic Proofs.DecoderGeneric Proofs.ClassicProofs.
+   All of it is proved, for every byte string and (where a hash occurs) for every function H in
+   place of sha256:
+     C16_node_from_stream_is_parse / _total   the ParseOp stack machine is the recursive grammar
+                           [parse]; no panic site (values.pop().unwrap()) and no fuel exhaustion
+                           (fuel = 2|b|+2 is inside the definition: termination bound);
+     C16_tree_hash_agrees  tree_hash_from_stream: same accept set, same error, same remaining
+                           input, hash = treehash of the tree node_from_stream builds;
+     C16_parse_triples_agrees  parse_triples: same accept set and remaining input; on success the
+                           triple array is [triples_of a 0 0] and the hash array [hashes_of H a] of
+                           an annotated tree [a] (the decoded tree + each atom's prefix length,
+                           Proofs/ClassicTriples.v) with [aerase a] = the tree of node_from_stream;
+                           on failure the same error except that a truncated atom body is
+                           InternalError ("copy terminated early") where node_from_stream reports
+                           SerializationError;
+     C16_parse_triples_total   no panic site of de_tree.rs (r[index], tree_hashes[index + 1],
+                           tree_hashes[right_index], the two panic!s) is reachable, and the loop
+                           ends within 4|b|+4 iterations;
+     C16_parse_triples_describe  reading the returned array back against the input as the
+                           ParsedTriple documentation says (atom bytes = blob[start+atom_offset..end],
+                           left child = next index, right child = right_index) gives exactly the
+                           tree of node_from_stream; the root triple spans [0, consumed);
+                           the array has one entry per node and the hash array holds the tree hash
+                           of every sub-tree in the same (pre-)order;
+     C16_no_over_allocation  what the decoders build is bounded by what they read: the decoded
+                           tree has at most one node and at most one atom byte per consumed input
+                           byte (so new_atom / new_pair requests, the triple and hash arrays, and
+                           the value stacks are linear in the input). The allocator's own caps and
+                           Vec capacity growth are outside the model (DESIGN.md section 3);
+     C16_canon             the canonical equivalence; C16_canon_total: is_canonical_serialization
+                           returns true or false on every byte string (its panic!("unexpected atom
+                           length prefix") is unreachable, fuel 2|b|+2 suffices).
+   [wf_bytes b]: every element of the list is a byte (< 256). *)
+From Clvm Require Import Model.Classic Proofs.DecoderGeneric Proofs.ClassicProofs
+  Proofs.ClassicConverse Proofs.ClassicTriples.
 Open Scope N_scope.
 
 (* the stack decoder is the recursive grammar, on every byte string *)
@@ -26,7 +51,7 @@ Theorem C16_node_from_stream_total : forall bs e,
 Proof. exact node_from_stream_total. Qed.
 
 (* tree_hash_from_stream: same accept set, same error, same remaining input, hash of the same tree *)
-Theorem C16_tree_hash_agrees_partial : forall (H : bytes -> bytes) bs,
+Theorem C16_tree_hash_agrees : forall (H : bytes -> bytes) bs,
   tree_hash_from_stream H bs =
     match node_from_stream bs with
     | Ok (t, rest) => Ok (treehash H t, rest)
@@ -37,6 +62,49 @@ Proof.
   destruct (parse bs) as [[t rest]|e]; reflexivity.
 Qed.
 
+(* parse_triples: same accept set, same remaining input, arrays of the same (annotated) tree *)
+Theorem C16_parse_triples_agrees : forall (H : bytes -> bytes) bs,
+  match node_from_stream bs with
+  | Ok (t, rest) =>
+      exists a, aerase a = t /\ parse_triples H bs = Ok (triples_of a 0 0, hashes_of H a, rest)
+  | Err e =>
+      exists e', parse_triples H bs = Err e' /\
+                 (e' = e \/ (e' = InternalError 2 /\ e = SerializationError))
+  end.
+Proof. exact parse_triples_agrees. Qed.
+
+Theorem C16_parse_triples_total : forall (H : bytes -> bytes) bs e,
+  parse_triples H bs = Err e -> ~ (e = OutOfFuel \/ exists n, e = Panic n).
+Proof. exact parse_triples_total. Qed.
+
+(* the triple array read back against the input is the decoded tree; one triple per node; hash
+   array = tree hash of each sub-tree (pre-order); root span = consumed bytes *)
+Theorem C16_parse_triples_describe : forall (H : bytes -> bytes) bs ts hs rest,
+  parse_triples H bs = Ok (ts, hs, rest) ->
+  exists t, node_from_stream bs = Ok (t, rest) /\
+            tree_of_triples (length ts) bs ts 0 = Some t /\
+            exists t0, nth_error ts 0 = Some t0 /\ triple_span t0 = (0, blen bs - blen rest).
+Proof. exact parse_triples_describe. Qed.
+
+Theorem C16_parse_triples_hashes : forall (H : bytes -> bytes) bs ts hs rest,
+  parse_triples H bs = Ok (ts, hs, rest) ->
+  exists t, node_from_stream bs = Ok (t, rest) /\ hs = map (treehash H) (subtrees t) /\
+            length ts = n_nodes t.
+Proof. exact parse_triples_hashes. Qed.
+
+Theorem C16_no_over_allocation : forall bs t rest, node_from_stream bs = Ok (t, rest) ->
+  (n_nodes t <= length bs - length rest /\ atom_bytes t <= length bs - length rest)%nat.
+Proof. exact decode_output_bounded. Qed.
+
+(* canonical <-> the whole input is one tree whose re-serialization reproduces it *)
+Theorem C16_canon : forall b t rest, wf_bytes b = true -> node_from_stream b = Ok (t, rest) ->
+  (is_canonical_serialization b = BTrue <-> rest = [] /\ ser t = Some b).
+Proof. exact canonical_iff. Qed.
+
+Theorem C16_canon_total : forall bs, wf_bytes bs = true ->
+  is_canonical_serialization bs = BTrue \/ is_canonical_serialization bs = BFalse.
+Proof. exact is_canonical_total. Qed.
+
 Example C16_witness :
   node_from_stream [0xff; 0x83; 1; 2; 3; 0xff; 0x80; 0x05; 0x77] =
     Ok (Cons (Atom [1; 2; 3]) (Cons (Atom []) (Atom [5])), [0x77]) /\
@@ -44,7 +112,28 @@ Example C16_witness :
   node_from_stream [0xfe; 0; 0; 0; 0; 0; 1; 0x61] = Err SerializationError.
 Proof. vm_compute. repeat split. Qed.
 
+(* parse_triples on the same inputs (hash function: identity, so that the arrays are readable):
+   a non-canonical two-byte prefix shows up as atom_offset 2; the truncated atom is the one error
+   that differs *)
+Example C16_triples_witness :
+  parse_triples (fun x => x) [0xff; 0xc0; 0x03; 1; 2; 3; 0xff; 0x80; 0x05; 0x77] =
+    Ok ([TPair 0 9 2; TAtom 1 6 2; TPair 6 9 4; TAtom 7 8 1; TAtom 8 9 0],
+        [[2; 1; 1; 2; 3; 2; 1; 1; 5]; [1; 1; 2; 3]; [2; 1; 1; 5]; [1]; [1; 5]], [0x77]) /\
+  parse_triples (fun x => x) [0xff; 0x83; 1; 2] = Err (InternalError 2) /\
+  is_canonical_serialization [0xff; 0xc0; 0x03; 1; 2; 3; 0xff; 0x80; 0x05] = BFalse /\
+  is_canonical_serialization [0xff; 0x83; 1; 2; 3; 0xff; 0x80; 0x05] = BTrue /\
+  is_canonical_serialization [0xff; 0x83; 1; 2; 3; 0xff; 0x80; 0x05; 0x77] = BFalse.
+Proof. vm_compute. repeat split. Qed.
+
 Print Assumptions C16_node_from_stream_is_parse.
 Print Assumptions C16_node_from_stream_total.
-Print Assumptions C16_tree_hash_agrees_partial.
+Print Assumptions C16_tree_hash_agrees.
+Print Assumptions C16_parse_triples_agrees.
+Print Assumptions C16_parse_triples_total.
+Print Assumptions C16_parse_triples_describe.
+Print Assumptions C16_parse_triples_hashes.
+Print Assumptions C16_no_over_allocation.
+Print Assumptions C16_canon.
+Print Assumptions C16_canon_total.
 Print Assumptions C16_witness.
+Print Assumptions C16_triples_witness.
